@@ -41,7 +41,7 @@ Operators == {
   Op("table-repeated-x", "registry"), Op("table-empty-data", "registry"), Op("table-not-finite", "registry"), Op("table-empty-name", "registry"),
   Op("table-named-like-library-function", "registry"),
   Op("form-bad-signature", "registry"), Op("form-dotted-name", "registry"), Op("form-no-parameters", "registry"), Op("form-reserved-parameter", "registry"), Op("form-parameters-differ-in-case", "registry"), Op("form-numeric-parameter", "registry"),
-  Op("form-same-label-other-arity", "registry"), Op("form-parameter-named-like-a-form", "registry"), Op("form-label-reserved", "registry"),
+  Op("form-same-label-other-arity", "registry"), Op("form-parameter-named-like-a-form", "registry"), Op("form-label-reserved", "registry"), Op("form-labels-differ-in-case", "registry"),
   Op("form-signature-trailing-text", "registry"),
   Op("missing-pair-section", "pair-builder"), Op("unknown-form", "pair-builder"), Op("unknown-modifier", "pair-builder"), Op("nested-unknown-form", "pair-builder"),
   Op("too-few-parameters", "pair-builder"), Op("too-many-parameters", "pair-builder"), Op("nonnumeric-parameter", "pair-builder"), Op("empty-value", "pair-builder"),
@@ -65,7 +65,7 @@ Escapes == {"not-text", "edit-placeholder-syntax", "grid-step-underflow", "form-
             "table-only-x", "table-only-y", "table-three-points", "table-not-increasing", "table-repeated-x", "table-empty-data", "table-with-parameters",
             "form-no-parameters", "form-numeric-parameter", "exp-spline-with-parameters", "buck4-spline-without-rmin", "spline-middle-is-modifier",
             "trans-second-is-modifier", "fs-plain-keys", "fs-double-arrow", "species-nonnumeric-number", "species-nonnumeric-mass", "species-float-number"}
-Accepted == {"pair-key-empty-species", "grid-overflow", "table-not-finite", "table-empty-name", "form-signature-trailing-text", "cutoff-nan", "cutoff-inf", "buck4-spline-rmin-below-detach", "buck4-spline-rmin-above-attach", "buck4-form-rmin-outside"}
+Accepted == {"form-labels-differ-in-case", "pair-key-empty-species", "grid-overflow", "table-not-finite", "table-empty-name", "form-signature-trailing-text", "cutoff-nan", "cutoff-inf", "buck4-spline-rmin-below-detach", "buck4-spline-rmin-above-attach", "buck4-form-rmin-outside"}
 
 VARIABLES op, stage, outcome, fileOpened, table
 vars == <<op, stage, outcome, fileOpened, table>>
